@@ -7,6 +7,7 @@ import deal
 import deal.introspection as di
 
 def run(case):
+    use = (lambda g: next(iter(g))) if case.get('gen_methods') else (lambda v: v)
     env = {}
     cid_of = {}
     out = []
@@ -17,9 +18,14 @@ def run(case):
         body = {}
         for mname, md in c['methods']:
             def mk(mname=mname, cname=c['name']):
-                def m(self, x):
-                    if isinstance(x, tuple) and x[0] == 'raise': raise excs[x[1]]()
-                    return ('body', cname, mname, self, x)
+                if case.get('gen_methods'):
+                    def m(self, x):
+                        if isinstance(x, tuple) and x[0] == 'raise': raise excs[x[1]]()
+                        yield ('body', cname, mname, self, x)
+                else:
+                    def m(self, x):
+                        if isinstance(x, tuple) and x[0] == 'raise': raise excs[x[1]]()
+                        return ('body', cname, mname, self, x)
                 m.__name__ = mname
                 return m
             fn = mk()
@@ -60,7 +66,7 @@ def run(case):
         if case.get('first_disabled'):
             # the first lookup / call of the method happens while contracts are disabled; afterwards they are enabled again
             deal.disable()
-            try: getattr(inst, mname)(10**6)
+            try: use(getattr(inst, mname)(10**6))
             except BaseException: pass
             finally: deal.enable()
         res = {}
@@ -70,8 +76,8 @@ def run(case):
             for cid in all_ids + [10**6]:
                 try:
                     if kinds.get(cid) == 'raises':
-                        getattr(inst, mname)(('raise', cid)); continue
-                    r = getattr(inst, mname)(('out', cid) if kinds.get(cid) in ('post', 'ensure') else cid)
+                        use(getattr(inst, mname)(('raise', cid))); continue
+                    r = use(getattr(inst, mname)(('out', cid) if kinds.get(cid) in ('post', 'ensure') else cid))
                     selfs.add('instance' if r[3] is inst else ('class' if r[3] is cls else 'other'))
                 except deal.PreContractError:
                     enforced.append(cid)
